@@ -77,6 +77,37 @@ pub fn block_on<F: Future>(fut: F) -> F::Output {
     }
 }
 
+/// Scheduling point at a synchronisation operation in async code: a yield, or (fault injection)
+/// a long preemption of the task.
+pub async fn sync_point() {
+    let (sim, _) = ctx();
+    match sim.draw_preemption() {
+        Some(d) => {
+            let until = sim.lock().now.saturating_add(d);
+            Preempted { until }.await
+        }
+        None => yield_now().await,
+    }
+}
+
+struct Preempted {
+    until: u64,
+}
+
+impl Future for Preempted {
+    type Output = ();
+    fn poll(self: Pin<&mut Self>, _cx: &mut Context<'_>) -> Poll<()> {
+        let (sim, _) = ctx();
+        let now = sim.lock().now;
+        if now >= self.until {
+            Poll::Ready(())
+        } else {
+            wait_deadline(self.until);
+            Poll::Pending
+        }
+    }
+}
+
 /// A future that yields to the scheduler once (a scheduling point inside async code).
 pub struct YieldNow(bool);
 
@@ -246,7 +277,7 @@ pub mod shim_tokio {
                 RwLock { id: (g.locks.len() - 1) as u32, inner: ::tokio::sync::RwLock::new(t) }
             }
             pub async fn read(&self) -> RwLockReadGuard<'_, T> {
-                crate::task::yield_now().await;
+                crate::task::sync_point().await;
                 let g = match self.inner.try_read() {
                     Ok(g) => g,
                     Err(_) => {
@@ -258,7 +289,7 @@ pub mod shim_tokio {
                 RwLockReadGuard { g: Some(g), id: self.id }
             }
             pub async fn write(&self) -> RwLockWriteGuard<'_, T> {
-                crate::task::yield_now().await;
+                crate::task::sync_point().await;
                 let g = match self.inner.try_write() {
                     Ok(g) => g,
                     Err(_) => {
